@@ -53,6 +53,7 @@ CHECKS["C01"] = {
     "jobs": [
         {"pkg": MUX, "run": "^TestVerif_C01_SessionPair$", "checks": {"quick": 1500, "thorough": 200000}, "shards": {"thorough": 16}},
         {"pkg": MUX, "run": "^TestVerif_C01_AddConnRace$", "checks": {"quick": 300, "thorough": 20000}, "shards": {"thorough": 8}},
+        {"pkg": SERVER, "run": "^TestVerif_C01_FullRig$", "checks": {"quick": 120, "thorough": 8000}, "shards": {"thorough": 16}, "timeout": {"quick": 600}},
         {"pkg": MUX, "run": "^TestVerif_C01_ManyStreams$", "checks": {"quick": 40, "thorough": 3000}, "shards": {"thorough": 16}},
     ],
 }
@@ -66,6 +67,7 @@ CHECKS["C03"] = {
     "assumptions": ["only the client opens streams", "network delivers bytes exactly once, in order per connection"],
     "jobs": [
         {"pkg": MUX, "run": "^TestVerif_C03_Close$", "checks": {"quick": 2000, "thorough": 300000}, "shards": {"thorough": 16}, "timeout": {"quick": 300}},
+        {"pkg": SERVER, "run": "^TestVerif_C03_FullRig$", "checks": {"quick": 80, "thorough": 5000}, "shards": {"thorough": 16}, "timeout": {"quick": 600}},
     ],
 }
 
@@ -186,5 +188,17 @@ CHECKS["C06"] = {
     "assumptions": ["utls builds ClientHellos as the real client does", "crypto/tls and gorilla/websocket are correct"],
     "jobs": [
         {"pkg": SERVER, "run": "^TestVerif_C06_Handshake$", "checks": {"quick": 1000, "thorough": 100000}, "shards": {"thorough": 16}, "timeout": {"quick": 600}},
+    ],
+}
+
+CHECKS["C10"] = {
+    "level": "exploration",
+    "technique": "rapid-generated full client<->server rigs (all browser signatures, encryption methods, NumConn 0..8, traffic scripts, closes, virtual-clock latencies) with a passive tap on every connection; oracle = independent TLS record / ClientHello / ServerHello parser in /verif/kit/tlsref.go",
+    "level_text": "Every byte either side ever wrote on every client<->server connection of the generated sessions is parsed: the client's first flight must be exactly one handshake record (0x0301) with a structurally consistent ClientHello (all length fields add up, 32-byte session id, one server name equal to the configured one or a valid random host name, 32-byte X25519 share); the server must answer ServerHello (session id echoed, consistent) + ChangeCipherSpec + application data; everything after is application-data records (type 23, version 3.3) of length 1..16640 with no trailing partial record.",
+    "level_note": "Direct mode only (as the property states). The traffic is whatever the C01 full-rig scripts produce, including stream and session closing notices and inactivity closures.",
+    "rule": "rapid draws a client configuration and 1..8 proxy connections with scripts; evaluations counts parsed connections; non-trivial = a rig in which >=1 connection carried data records in both directions after the handshake; distinct = distinct scenarios.",
+    "assumptions": ["tlsref.go implements RFC 8446 framing correctly"],
+    "jobs": [
+        {"pkg": SERVER, "run": "^TestVerif_C10_Wire$", "checks": {"quick": 150, "thorough": 10000}, "shards": {"thorough": 16}, "timeout": {"quick": 600}},
     ],
 }
